@@ -630,7 +630,11 @@ def dstepCore (st : DState) (line : String) : DState × Option String :=
   | ["nocache"] => (st, none)
   | ["stallfirst", _] => (st, none)
   | ["tracelog"] => (st, none)
+  | ["lockwarm", _] => (st, none)
+  | ["pruning"] => (st, none)
   | ["pause", _] => (st, some "ok")
+  -- a rules-level batch over synthetic keys (judged by the harness-side expectation, not by this model: "-")
+  | ["rbatch", _, _, _, _, _] => (st, some "-")
   -- a second rules service on the storage path of a running instance: the directory lock refuses it
   | ["twinprop", _, _, _, _] => (st, some "refused")
   | ["twinatt", _, _, _, _] => (st, some "refused")
@@ -680,6 +684,8 @@ def dstepCore (st : DState) (line : String) : DState × Option String :=
       let clash := st.jprops.any (fun e => e.1 == k && decide (d.slot ≤ e.2.slot))
       ({ st with jprops := st.jprops ++ [(k, d)] }, some (if clash then "NOT-INCREASING" else "ok"))
     | _, _ => bad st line
+  -- the import command while an instance is active on the store: refused (the directory is locked), nothing changes
+  | ["importlive", _, _, _] => (st, some "err")
   | ["import", gvr, md, entries] =>
     match hs gvr, parseIFile md entries with
     | some gvr, some f =>
@@ -863,6 +869,14 @@ def dstep (st : DState) (line : String) : DState × Option String :=
   | "lin-end" :: final =>
     let ok := linSearch (st.linOps.length + 1) st st.linOps (" ".intercalate final).trimAscii.toString
     (st, some (if ok then "LINEARIZABLE" else "NOT-LINEARIZABLE"))
-  | _ => dstepCore st line
+  | _ =>
+    -- fault `u` (the accounts of this request cannot say whether they are unlocked): the request fails before the rules are
+    -- consulted; no state changes; what the reply's states are is left to the harness-side judge ("-")
+    let fs := fields line
+    let faultField := match fs with
+      | [k, _, _, _, _, fl] => if k == "att" || k == "prop" || k == "sign" then fl else "-"
+      | [k, _, _, fl, _] => if k == "atts" || k == "msign" then fl else "-"
+      | _ => "-"
+    if (faultField.splitOn ",").contains "u" then (st, some "-") else dstepCore st line
 
 end Driver
